@@ -42,6 +42,9 @@ def gen(ctx, n):
             stride = 1 if pad == 'same' else r.randint(1, 3)
             add('conv%d' % nd, {'cin': cin, 'cout': cout, 'k': ksz, 'stride': stride, 'pad': pad, 'dil': dil, 'groups': groups, 'bias': r.random() < 0.7,
                                'norm': r.choice(['gn', 'in', 'none']), 'gn_groups': r.choice([1, cout]), 'size': size, 'o': 2})
+            # the same convolution on an input stored in another memory layout
+            add('conv%d' % nd, {'cin': cin, 'cout': cout, 'k': ksz, 'stride': stride, 'pad': pad, 'dil': dil, 'groups': groups, 'bias': r.random() < 0.7,
+                               'norm': r.choice(['gn', 'none']), 'gn_groups': 1, 'size': size + 1, 'o': 2, 'layout': r.choice(['channels_last', 'transposed'])})
             # non-zero padding modes: the layer pads its own input (reflect needs pad < size)
             pm = r.choice(['circular', 'reflect', 'replicate'])
             ipad = r.choice([1, 2, 'same']) if (isinstance(ksz, int) and (ksz - 1) * dil >= 1) else 1
@@ -135,7 +138,7 @@ def sampler_correspondence(ctx, n):
                 pad = (1, 1)
         conv2.append({'seed': r.randint(0, 10**6), 'G': r.choice([1, 1, 2]), 'cg': r.randint(1, 2), 'og': r.randint(1, 2), 'K': [Kh, Kw],
                       'stride': [1, 1] if pad == 'same' else [r.randint(1, 2), r.randint(1, 3)], 'dil': [dh, dw], 'pad': pad if isinstance(pad, str) else list(pad),
-                      'HW': [Hh, Ww], 'pmode': pm})
+                      'HW': [Hh, Ww], 'pmode': pm, 'layout': r.choice(['contiguous', 'contiguous', 'channels_last', 'transposed'])})
     res = vlib.run_impl('gs_samplers.py', {'lin': lin, 'emb': emb, 'conv': conv, 'bag': bag, 'conv2': conv2})
     c2i = ['(%d%%nat, %d%%nat, %d%%nat, %d%%nat, %d%%nat, %d%%nat, %d%%nat, (%d%%nat, %d%%nat), (%d%%nat, %d%%nat), %d%%nat, %s, %s, %s, %s)' % (
            x['Ph'], x['Pw'], c['G'] * c['og'], c['cg'], c['K'][0], c['K'][1], c['og'], c['stride'][0], c['stride'][1], c['dil'][0], c['dil'][1], x['Wp'],
